@@ -5,15 +5,15 @@
 wt=$1; shift
 cd "$wt" || exit 2
 export HOME=/var/tmp/seedhome-$$ BRZ_HOME=/var/tmp/seedhome-$$; mkdir -p $HOME
-git diff -- . ':!patch.diff' ':!demo.py' > /var/tmp/seedpatch-$$.diff
+git diff > /var/tmp/seedpatch-$$.diff
 /venv/bin/python demo.py > /var/tmp/seed-demo-with-$$.log 2>&1; with=$?
-git stash -q
+git apply -R /var/tmp/seedpatch-$$.diff || exit 2
 /venv/bin/python demo.py > /var/tmp/seed-demo-without-$$.log 2>&1; without=$?
 tw="-"; two="-"
 if [ $# -gt 0 ]; then
   two=$(timeout 3000 /venv/bin/python -m pytest -q -p no:cacheprovider -n 4 "$@" 2>&1 | tail -1)
 fi
-git stash pop -q
+git apply /var/tmp/seedpatch-$$.diff || exit 2
 if [ $# -gt 0 ]; then
   tw=$(timeout 3000 /venv/bin/python -m pytest -q -p no:cacheprovider -n 4 "$@" 2>&1 | tail -1)
 fi
